@@ -115,6 +115,8 @@ func (fr *Frame) callWith(st *State, instr ssa.Instruction, c *ssa.CallCommon, f
 	} else if sp, ok := trusted[origin.String()]; ok {
 		u.callsTrusted[calleeName] = true
 		res = sp(fr, st, full, instr)
+	} else if top := fr.topFrame(); top.fc != nil && matchAny(top.fc.Opaque, calleeName) {
+		res = fr.defaultCall(st, sig, calleeName, inRepo(callee), full)
 	} else if fc := u.cx.contractFor(callee); fc != nil && !fc.Inline && !(fr.top && origin == fr.fn && false) {
 		u.callsContract[calleeName] = true
 		fr.callBind = fnv.Bind
@@ -383,7 +385,7 @@ func (fr *Frame) ghostPatterns() []string {
 	walk = func(e Expr) {
 		switch x := e.(type) {
 		case *ECall:
-			if (x.Fn == "called" || x.Fn == "ret" || x.Fn == "ret1" || x.Fn == "ret2" || x.Fn == "first" || x.Fn == "count" || x.Fn == "counttrue0" || x.Fn == "counttrue1") && len(x.Args) >= 1 {
+			if (x.Fn == "called" || x.Fn == "ret" || x.Fn == "ret1" || x.Fn == "ret2" || x.Fn == "ret3" || x.Fn == "first" || x.Fn == "count" || x.Fn == "counttrue0" || x.Fn == "counttrue1") && len(x.Args) >= 1 {
 				if s, ok := x.Args[0].(*EStr); ok && !seen[s.V] {
 					seen[s.V] = true
 					out = append(out, s.V)
@@ -524,7 +526,7 @@ func (fr *Frame) applyContract(st *State, fc *FuncContract, callee *ssa.Function
 	return resultVal(u, sig, res)
 }
 
-var ghostRe = regexp.MustCompile(`\b(called|ret|ret1|ret2|first|count|counttrue0|counttrue1)\("`)
+var ghostRe = regexp.MustCompile(`\b(called|ret|ret1|ret2|ret3|first|count|counttrue0|counttrue1)\("`)
 
 func shortName(n string) string {
 	if i := strings.LastIndex(n, "/"); i >= 0 {
